@@ -260,72 +260,4 @@ theorem setInitialWindowSize_cinv {c : Conn} (h : CInv c) (size : Nat) (hs : siz
   have : settingsIws [(4, size)] = some size := by simp [settingsIws]
   rw [this] at ht; cases ht; exact hs
 
-theorem takeError_cinv {c : Conn} (h : CInv c) (o : Reason) (i : Initiator) : CInv (c.takeError o i).1 := by
-  unfold Conn.takeError
-  dsimp only
-  split
-  · exact h
-  · split <;> exact h
-
-theorem handleGoAway_cinv {c : Conn} (h : CInv c) (r : Reason) (d : Bytes) (i : Initiator) :
-    CInv (c.handleGoAway r d i) := by
-  unfold Conn.handleGoAway
-  split
-  · exact h
-  · dsimp only
-    apply goAwayNowData_cinv
-    exact h.op (.handleError _) trivial
-
-theorem handlePoll2Result_cinv {c : Conn} (h : CInv c) (res : Except PErr Unit) : CInv (c.handlePoll2Result res).1 := by
-  unfold Conn.handlePoll2Result
-  split
-  · exact h
-  · exact handleGoAway_cinv h _ _ _
-  · split
-    · exact h
-    · rename_i id reason init _
-      have h1 : CI (c.streams.innerSendReset id reason).1 c.settings.loc := h.op (.innerSendReset id reason) trivial
-      split
-      · rename_i heq; exact CI.fst heq h1
-      · rename_i s g heq
-        apply handleGoAway_cinv
-        exact CI.fst heq h1
-  · dsimp only
-    have h1 : CI (c.streams.handleError _).1 c.settings.loc := h.op (.handleError _) trivial
-    split
-    · exact h1
-    · exact h1
-
-/-- **`DynConnection::recv_frame`**: every frame the peer can send -/
-theorem recvFrame_cinv {c : Conn} (h : CInv c) (f : Option Frame.Frame) : CInv (c.recvFrame f).1 := by
-  unfold Conn.recvFrame
-  dsimp only
-  split
-  · have := h.op (.recvHeaders _) trivial
-    split <;> (rename_i heq; exact CI.fst heq this)
-  · have := h.op (.recvData _ _ _ _) trivial
-    split <;> (rename_i heq; exact CI.fst heq this)
-  · have := h.op (.recvReset _ _) trivial
-    split <;> (rename_i heq; exact CI.fst heq this)
-  · have := h.op (.recvPushPromise _ _) trivial
-    split <;> (rename_i heq; exact CI.fst heq this)
-  · exact h
-  · rename_i last code debug
-    have := h.op (.recvGoAwayFrame last code debug) trivial
-    split <;> (rename_i heq; exact CI.fst heq this)
-  · -- PING
-    rename_i ack payload
-    have h1 : CI (c.streams.wake (c.pingPong.recvPing ack payload).2.2.1) c.settings.loc := h.op (.wake _) trivial
-    split
-    · split
-      · apply dynGoAway_cinv; exact h1
-      · apply dynGoAway_cinv; exact h1.op (.panic _) trivial
-    · split
-      · exact h1
-      · exact h1.op (.panic _) trivial
-  · have := h.op (.recvWindowUpdate _ _) trivial
-    split <;> (rename_i heq; exact CI.fst heq this)
-  · exact h
-  · exact h.op (.recvEof false) trivial
-
 end H2V.Lemmas.ConnRecvP
